@@ -19,7 +19,7 @@ func init() { register(c05{}) }
 func (c05) ID() string { return "C05" }
 func (c05) Size(tier string) Size {
 	if tier == "thorough" {
-		return Size{Batches: 32, Cases: 450}
+		return Size{Batches: 32, Cases: 220}
 	}
 	return Size{Batches: 16, Cases: 140}
 }
@@ -360,8 +360,8 @@ func (m c05) Case(c *Ctx, r *RNG) {
 		tb = resPayload
 	}
 	step := 1
-	if !c.Thorough() && len(tb) > 200 {
-		step = len(tb)/200 + 1
+	if limit := c.Pick(200, 1500); len(tb) > limit {
+		step = len(tb)/limit + 1
 	}
 	for cut := 0; cut < len(tb); cut += step {
 		m.attack(c, s, schema, tb[:cut], "truncated")
@@ -396,7 +396,8 @@ func (m c05) Case(c *Ctx, r *RNG) {
 		var slots []**JV
 		root.slots(&slots)
 		for si, slot := range slots {
-			if !c.Thorough() && len(slots) > 12 && r.Intn(len(slots)) >= 12 {
+			// sampled: about 12 positions per payload in quick, about 60 in thorough (enriched payloads have hundreds)
+			if quota := c.Pick(12, 60); len(slots) > quota && r.Intn(len(slots)) >= quota {
 				continue
 			}
 			orig := *slot
